@@ -11,6 +11,7 @@ import (
 	"github.com/FollowTheProcess/spok/iostream"
 	"github.com/FollowTheProcess/spok/parser"
 	"github.com/FollowTheProcess/spok/shell"
+	"github.com/FollowTheProcess/spok/zzverif/refs"
 	"github.com/FollowTheProcess/spok/zzverif/sym"
 	"github.com/FollowTheProcess/spok/zzverif/vfs"
 )
@@ -106,15 +107,19 @@ func sortedCopy(s []string) []string {
 	return out
 }
 
-// currentInputs lists what task t hashes in this invocation.
+// globfilesNow are the files of this history that a glob may match, declared what the shape's
+// text declares per task (both set by History).
+var (
+	globfilesNow []string
+	declared     map[string]refs.Decl
+)
+
+// currentInputs lists what task t must hash in this invocation: its literal file dependencies
+// and the files on disk that its glob patterns match. Both come from the harness's own reading
+// of the shape (package refs), not from sf.Tasks or from what Run left in sf.Globs: a seeded
+// change that expanded only the requested tasks' globs went unnoticed while the ghost read sf.Globs.
 func currentInputs(sf *file.SpokFile, t string) inputs {
-	tk := sf.Tasks[t]
-	var paths []string
-	for _, g := range tk.GlobDependencies {
-		paths = append(paths, sf.Globs[g]...)
-	}
-	paths = append(paths, tk.FileDependencies...)
-	paths = sortedCopy(paths)
+	paths := refs.Inputs(declared[t], root, globfilesNow, pathExists)
 	in := inputs{valid: true, paths: paths}
 	for _, p := range paths {
 		in.contents = append(in.contents, readContent(p))
@@ -132,6 +137,8 @@ func History() {
 	text := sym.ParamStr("spokfile", "task A(\"a.txt\") {\n\tcmdA\n}\n")
 	files := splitList(sym.ParamStr("files", "a.txt"))
 	globfiles := splitList(sym.ParamStr("globfiles", ""))
+	globfilesNow = append(append([]string(nil), files...), globfiles...)
+	declared = refs.Declared(text)
 	var requests [][]string
 	for _, r := range strings.Split(sym.ParamStr("requests", "A"), ";") {
 		requests = append(requests, splitList(r))
@@ -225,7 +232,7 @@ func History() {
 			nCmds[e.task]++
 			if crashed || rerr != nil {
 				// a killed run: a task counts as completed if all its commands returned
-				if nCmds[e.task] == len(sf.Tasks[e.task].Commands) {
+				if nCmds[e.task] == declared[e.task].Commands {
 					ran[e.task] = true
 					okRun[e.task] = true
 				}
@@ -259,7 +266,7 @@ func History() {
 					if r.Skipped {
 						sym.Violation("C14/skipped-under-force", r.Task)
 					}
-					if executedHere != len(sf.Tasks[r.Task].Commands) {
+					if executedHere != declared[r.Task].Commands {
 						sym.Violation("C14/commands-not-run-under-force", r.Task)
 					}
 				}
